@@ -171,14 +171,14 @@ PROPS["C11"] = {
 
 PROPS["C04"] = {
     "kind": "crash",
-    "modules": ["C04"], "required_theorems": ["crash_safe", "crash_in_progress", "recover_facts", "launch_files_ok", "segs_op", "segs_ops", "step_launch_inv", "crashPairs_pjok", "crash_safe_not_banned",
+    "modules": ["C04"], "required_theorems": ["crash_safe", "crash_in_progress", "reset_fault_safe", "recover_facts", "launch_files_ok", "segs_op", "segs_ops", "step_launch_inv", "crashPairs_pjok", "crash_safe_not_banned",
                           "secHandlePriorSaves_apply", "secLaunchStartSaves_apply", "secLaunchSuccessSaves_apply", "secLaunchFailureSaves_apply",
                           "secNextBootPatchSaves_apply", "secClearEventsSaves_apply", "secRollBackSaves_apply", "secInstallSaves_apply"],
     "monitors": ["C04"],
     "assumptions": ["process death = the process stops between two of its file-system calls, or half-way through a write; every completed call is durable and ordered (no fsync in the code: loss or reordering of completed writes by the kernel / file system below is outside the model)",
                     "a state file that is being rewritten is unreadable (empty or cut short) until the write completes: serde_json rejects every proper prefix of the documents involved",
                     "the next launch passes the same release version as the interrupted one (any other version discards the state by C08)",
-                    "single I/O errors with continued execution (the property's second sentence) are exercised on the real library by the interposer in thorough runs but are NOT covered by the theorem"],
+                    "single I/O errors with continued execution (the property's second sentence): a theorem only for the release-change reset (reset_fault_safe, a fault model of its three file-system steps); everywhere else they are exercised on the real library by the interposer (mode eio) and judged, not proved"],
 }
 
 # Properties whose theorems are still being written: monitors + correspondence only (not in MANIFEST).
